@@ -622,3 +622,19 @@ func opTree(t Task) Result {
 }
 
 var _ = fmt.Sprint
+
+func init() { register("timing", opTiming) }
+
+// timing: wall-clock of one parse in milliseconds (scaling check of C01)
+func opTiming(t Task) Result {
+	src := s2b(tStr(t, "src"))
+	best := 1e18
+	for i := 0; i < 3; i++ {
+		st := nowNanos()
+		doParse(src, parseVersion(t), true)
+		if d := float64(nowNanos()-st) / 1e6; d < best {
+			best = d
+		}
+	}
+	return Result{"ms": best}
+}
